@@ -185,3 +185,16 @@ Theorem C12_range_output_bound : forall f block allops, bytes_ok block -> enc_ch
   (Wd allops <= 4677 * N.of_nat f + 56 * N.of_nat (length block))%N.
 Proof. exact enc_chunks_width. Qed.
 Print Assumptions C12_range_output_bound.
+
+(* bit-exact consumption, chunk by chunk: wherever a chunk stands in a stream (any reader state that holds its operations
+   followed by anything), one round of the decoder's loop returns the chunk's bytes and leaves the reader exactly at what
+   follows - the next chunk, or whatever comes after the codec's output *)
+Theorem C12_range_chunk_exact_consumption : forall buf, buf <> [] -> bytes_ok buf ->
+  exists cops fr, enc_chunk buf = Some cops /\ cops_ok cops /\ length fr = 256%nat /\
+    forall f s remaining fr0 acc t P p, RA s -> length fr0 = 256%nat -> Forall aop_ok t -> (p < 2 ^ P)%N ->
+      length buf = Nat.min CHUNK remaining ->
+      uval s = (fst (abvs (map conv cops ++ t)) * 2 ^ P + p)%N -> total s = (snd (abvs (map conv cops ++ t)) + P)%N ->
+      exists s', dec_chunks (S f) s remaining fr0 acc = dec_chunks f s' (remaining - length buf) fr (acc ++ buf) /\ RA s' /\
+        uval s' = (fst (abvs t) * 2 ^ P + p)%N /\ total s' = (snd (abvs t) + P)%N.
+Proof. exact chunk_step. Qed.
+Print Assumptions C12_range_chunk_exact_consumption.
